@@ -127,6 +127,12 @@ func (m *Module) onRequest(w *engine.World, tx *engine.TxRecord, op *engine.Op) 
 	if n > 1 {
 		w.Hit("random.several_due_at_one_height")
 		for _, k := range engine.SortedKeys(m.queue) {
+			if q := m.queue[k]; q.Due == due && q.ID != id && m.reqs[q.ID] != nil && m.reqs[q.ID].Oracle != e.Oracle {
+				w.Hit("random.oracle_and_plain_due_at_one_height")
+				break
+			}
+		}
+		for _, k := range engine.SortedKeys(m.queue) {
 			if q := m.queue[k]; q.Due == due && q.ID != id && m.reqs[q.ID] != nil && m.reqs[q.ID].Requester == e.Requester {
 				w.Hit("random.same_requester_two_blocks_one_due_height")
 			}
@@ -392,8 +398,21 @@ func (m *Module) checkResults(w *engine.World) {
 			if e.seenAt != 0 {
 				w.Violate("C18", "result/vanished/"+kind, "request %s: its number was readable after block %d and is gone after block %d", e.ID, e.seenAt, h)
 			} else {
-				w.Violate("C18", "result/not-fulfilled-on-time/"+kind, "request %s (%s, made at %d, interval %d%s) has no number after block %d; it was to be fulfilled in block %d",
-					e.ID, kind, e.ReqH, e.Interval, e.seedNote(), h, at)
+				shape := kind
+				with := ""
+				if !e.Oracle {
+					// the quantifier's case "several requests falling due at the same height":
+					// name the company the request had in the queue
+					for _, oid := range m.ord {
+						if o := m.reqs[oid]; o != e && o.Due == e.Due && o.Oracle {
+							shape = "plain/oracle-request-due-at-same-height"
+							with = fmt.Sprintf("; oracle-seeded request %s fell due at the same height", o.ID)
+							break
+						}
+					}
+				}
+				w.Violate("C18", "result/not-fulfilled-on-time/"+shape, "request %s (%s, made at %d, interval %d%s) has no number after block %d; it was to be fulfilled in block %d%s",
+					e.ID, kind, e.ReqH, e.Interval, e.seedNote(), h, at, with)
 			}
 		case found && (at == 0 || h < at):
 			if e.Oracle {
